@@ -68,7 +68,9 @@ boost::optional<H5Group> GroupHDF5::findEntityGroup(const nix::Identity &ident) 
 
     if (foundNeedle) {
         g = boost::make_optional(p->openGroup(needle, false));
-    } else if (haveName) {
+    } else if (haveName && !haveId) {
+        // members are linked under their id: an entity given by name AND id (a handle)
+        // whose id is not linked is not a member, whatever another member is called
         g = p->findGroupByAttribute("name", iname);
     }
 
